@@ -76,7 +76,7 @@ BUILT = {
              'depth, simulate walks) and seeded random programs are executed on a real Interferogram, a recorder logs after every public call what a user '
              'can observe (shape, dx, NaN set, returned grid descriptor, polar-consistency, the call\'s numerical promise), and TLC validates every '
              'recorded execution against InterferogramTrace.tla with the caches hidden.',
-        note='Trusted: TLC, the recorder (public API only), numpy. Bounded: maps up to 4x4 (all-histories model, quick) / 4x5, programs on maps up to 9x9; '
+        note='Added after round-2 seeding: r and t are read in both orders at every polar read, and a directed exploration (read / change / read / change / read over every pair of changes, constraint Alternating) joins the exhaustive and simulated histories. Trusted: TLC, the recorder (public API only), numpy. Bounded: maps up to 4x4 (all-histories model, quick) / 4x5, programs on maps up to 9x9; '
              'filter specified on NaN-free maps only; idempotence of tilt/power removal asserted only when the fitted modes are independent on the valid samples.',
         technique='TLA+ history-machine spec (Interferogram.tla) model-checked over all histories; recorded executions of the real class validated by TLC against InterferogramTrace.tla'),
     'C14': dict(
@@ -88,7 +88,7 @@ BUILT = {
              'is replayed on REAL files: written by write_zygo_dat / write_codev_gridint / Interferogram.save_zygo_dat, cut at the byte offset the '
              'abstract cut maps to (token boundaries found in the written text), read back with warnings captured, and checked against the relation '
              'the property states with the spec\'s missing-set, for six value classes and distinct sample values (orientation observable).',
-        note='Trusted: TLC, the 200-line file driver. Bounded: shapes up to 3x3 (quick) / 4x3, at most 1 (2) invalid samples, every cut position in the '
+        note='Added after round-2 seeding: instrument-written Zygo files (an intensity block between header and phase block, declared in the header) as first-generation files, their resave history, and the stale-ac variant as vacuity guard. Trusted: TLC, the 200-line file driver. Bounded: shapes up to 3x3 (quick) / 4x3, at most 1 (2) invalid samples, every cut position in the '
              'data block; quantisation step taken from the file\'s own header and bounded by the format range. Known finding: a Code V file cut inside '
              'its last token is read silently (known_findings.jsonl).',
         technique='TLA+ fault-machine spec (InstrumentFile.tla) checked by TLC over all truncation points; every behaviour replayed on real files written, cut and read by prysm'),
